@@ -85,6 +85,13 @@ func validPolicy(p string) bool { return p == "" || p == "allow" || p == "deny" 
 
 var ctxBG = context.Background()
 
+// ctxDone is an already cancelled context: what the registry calls do must not depend on it.
+var ctxDone = func() context.Context {
+	c, cancel := context.WithCancel(context.Background())
+	cancel()
+	return c
+}()
+
 // RegisterNode registers a fresh object under id. Returns a violation text or "".
 func (r *Reg) RegisterNode(id, policy string) string {
 	kind, ok := r.Kinds[id]
@@ -207,9 +214,16 @@ func (r *Reg) closes() map[*Node]int {
 	return m
 }
 
-func (r *Reg) RemovePipelineAndNodes(typ, pid string) string {
+func (r *Reg) RemovePipelineAndNodes(typ, pid string) string { return r.removePipelineAndNodes(ctxBG, typ, pid) }
+
+// RemovePipelineAndNodesCancelled is the same call with an already cancelled context.
+func (r *Reg) RemovePipelineAndNodesCancelled(typ, pid string) string {
+	return r.removePipelineAndNodes(ctxDone, typ, pid)
+}
+
+func (r *Reg) removePipelineAndNodes(ctx context.Context, typ, pid string) string {
 	before := r.closes()
-	ok, err := r.B.RemovePipelineAndNodes(ctxBG, el.EventType(typ), el.PipelineID(pid))
+	ok, err := r.B.RemovePipelineAndNodes(ctx, el.EventType(typ), el.PipelineID(pid))
 	r.LastFailed = !ok
 	key := typ + "/" + pid
 	p, exists := r.MPipes[key]
@@ -283,9 +297,14 @@ func (r *Reg) checkCloses(before map[*Node]int, want map[*Node]bool, what string
 	return ""
 }
 
-func (r *Reg) RemoveNode(id string) string {
+func (r *Reg) RemoveNode(id string) string { return r.removeNode(ctxBG, id) }
+
+// RemoveNodeCancelled is the same call with an already cancelled context.
+func (r *Reg) RemoveNodeCancelled(id string) string { return r.removeNode(ctxDone, id) }
+
+func (r *Reg) removeNode(ctx context.Context, id string) string {
 	before := r.closes()
-	err := r.B.RemoveNode(ctxBG, el.NodeID(id))
+	err := r.B.RemoveNode(ctx, el.NodeID(id))
 	r.LastFailed = err != nil
 	m, registered := r.MNodes[id]
 	switch {
